@@ -57,12 +57,23 @@ SchemeVal(f, s) ==
          [] s = "pl"  -> [t |-> "name", n |-> NamePL("ex", X)]
          [] s = "rec" -> [t |-> "name", n |-> [rep |-> "rec", r |-> [c |-> "doc", i |-> 1]]]
 Masks(k) == LET n == Len(Formals[k]) IN {0, IF n >= 2 THEN 2 ELSE n, n}
+FormalKey(f) == { NameQN("prov", ProvNS, <<f>>), NamePL("prov", <<f>>) }
+FormalKVs(k) == UNION { {<<key, v>> : key \in FormalKey(f), v \in Same(f) \cup Diff(f)}
+                          : f \in SeqToSet(Formals[k]) }
+FormalDiff1(k) == { <<f, CHOOSE d \in Diff(f) : TRUE>> : f \in SeqToSet(Formals[k]) }
+
 NewActs(k) ==
   { [op |-> "NewRec", h |-> "doc", k |-> k, via |-> via,
      id |-> IF k \in Elements \/ idp THEN <<NamePL("ex", <<"r">>)>> ELSE <<>>,
      formals |-> [i \in 1..m |-> <<Formals[k][i], SchemeVal(Formals[k][i], s)>>],
      extras |-> <<>>]
     : via \in {"new_record", "factory"}, idp \in BOOLEAN, m \in Masks(k), s \in Scheme }
+  \cup
+  { [op |-> "NewRec", h |-> "doc", k |-> k, via |-> via, id |-> <<NamePL("ex", <<"r">>)>>,
+     formals |-> [i \in 1..Len(Formals[k]) |-> <<Formals[k][i], SchemeVal(Formals[k][i], "qn")>>],
+     extras |-> << <<NamePL("prov", <<fv[1]>>), fv[2]>> >>]
+    : via \in {"new_record", "factory"},
+      fv \in {x \in FormalDiff1(k) : ~(k = "membership" /\ x[1] = "entity")} }   \* (the unclaimed path)
 
 ExtraName == { NameQN("ex", A, <<"attr">>), NamePL("ex", <<"attr">>), NameBare(<<"attr">>) }
 ExtraVals ==
@@ -76,11 +87,6 @@ ExtraVals ==
     [t |-> "nlit", T |-> "boolean", v |-> "1"], [t |-> "nlit", T |-> "dateTime", v |-> "t1"],
     [t |-> "nlit", T |-> "anyURI", u |-> A \o X], [t |-> "plit", v |-> "s1"] }
 
-FormalKey(f) == { NameQN("prov", ProvNS, <<f>>), NamePL("prov", <<f>>) }
-
-FormalKVs(k) == UNION { {<<key, v>> : key \in FormalKey(f), v \in Same(f) \cup Diff(f)}
-                          : f \in SeqToSet(Formals[k]) }
-FormalDiff1(k) == { <<f, CHOOSE d \in Diff(f) : TRUE>> : f \in SeqToSet(Formals[k]) }
 
 FollowActs(k) ==
   (* one formal pair: same or different value, key as object or as 'prov:f' string *)
@@ -95,6 +101,12 @@ FollowActs(k) ==
   { [op |-> "AddAttrs", r |-> Target, form |-> "pairs",
      pairs |-> << <<NameQN("ex", A, <<"attr2">>), [t |-> "int", v |-> "7"]>>,
                   <<NameQN("prov", ProvNS, <<fv[1]>>), fv[2]>> >>]
+      : fv \in FormalDiff1(k) }
+  \cup
+  (* the same formal twice in one call, same value first then a different one *)
+  { [op |-> "AddAttrs", r |-> Target, form |-> "pairs",
+     pairs |-> << <<NameQN("prov", ProvNS, <<fv[1]>>), CHOOSE v \in Same(fv[1]) : TRUE>>,
+                  <<NamePL("prov", <<fv[1]>>), fv[2]>> >>]
       : fv \in FormalDiff1(k) }
   \cup
   (IF k = "activity"
@@ -142,5 +154,5 @@ PropC05_refuse     == [][LET o == Obs IN o.op.op \in {"AddAttrs", "SetTime"} => 
 PropC05_idem       == [][LET o == Obs IN o.op.op \in {"AddAttrs", "SetTime"} => Holds(C05_idem(o), o)]_vars
 PropC05_accumulate == [][LET o == Obs IN o.op.op = "AddAttrs" => Holds(C05_accumulate(o), o)]_vars
 PropC05_new        == [][LET o == Obs IN o.op.op = "NewRec" => Holds(C05_new(o), o)]_vars
-IndexOK == \A h \in DOMAIN ms.con : IndexCoherent(ms.con[h])
+IndexOK == \A h \in DOMAIN ms.con : ms.con[h].kind # "loose" => IndexCoherent(ms.con[h])
 =============================================================================
